@@ -65,10 +65,23 @@ def known():
     return "\n".join(rows)
 
 
+def probes():
+    p = os.path.join(V, "refactors", "RESULTS.json")
+    if not os.path.exists(p):
+        return "(no probe run recorded)"
+    res = json.load(open(p))
+    silent = sorted(n for n, r in res.items() if r["status"] == "silent")
+    alarm = sorted((n, r) for n, r in res.items() if r["status"] != "silent")
+    rows = [f"Last recorded run (`tools/probe_all.py`, stored by `tools/probe_results.py`): **{len(silent)} of {len(res)}** patches silent under all 18 checks.", "", "Silent: " + ", ".join(silent) + ".", "", "| patch that still alarms | rule families that report it |", "|---|---|"]
+    for n, r in alarm:
+        rows.append(f"| {n} | {', '.join(r['reports'])} |")
+    return "\n".join(rows)
+
+
 def main():
     p = os.path.join(V, "DESIGN.md")
     s = open(p).read()
-    for tag, fn in (("SEEDS", seeds), ("MUTANTS", mutants), ("FIXED", fixed), ("KNOWN", known)):
+    for tag, fn in (("SEEDS", seeds), ("MUTANTS", mutants), ("FIXED", fixed), ("KNOWN", known), ("PROBES", probes)):
         b, e = f"<!-- {tag}-BEGIN -->", f"<!-- {tag}-END -->"
         if b in s and e in s:
             i, j = s.index(b) + len(b), s.index(e)
